@@ -435,7 +435,37 @@ class Sim(object):
 # ----------------------------------------------------------------------------------------------------------------
 # engine adapter
 # ----------------------------------------------------------------------------------------------------------------
+HYPOTHESIS_EVERY = 40     # thorough tier: one run seed in 40 is spent on the Hypothesis explorer (C19, C20)
+
+
+def run_hypothesis(prop, tier, seed):
+    from sim import hypo_b
+    from sim.kernel import sha
+    failing, sims, digest, examples, steps = hypo_b.explore(prop, tier, seed)
+    total = B.Stats()
+    for s in sims:
+        for table in ("ops", "faults", "probes", "extra"):
+            for k, v in getattr(s.stats, table).items():
+                total.inc(table, k, v)
+        total.lib_calls += s.stats.lib_calls
+        total.vacuous += s.stats.vacuous
+        total.nonvacuous += s.stats.nonvacuous
+        total.states |= s.stats.states
+    total.inc("extra", "hypothesis_examples", examples)
+    total.inc("extra", "hypothesis_steps", steps)
+    total.inc("extra", "hypothesis_invocations", 1)
+    if failing is not None:
+        return {"ops": failing.ops, "violation": failing.ctx.violation, "digest": digest, "stats": total,
+                "config": dict(failing.config(), explorer="hypothesis", sim_seed=failing.seed), "nontrivial": True,
+                "result_digest": digest[:20], "trace_seed": failing.seed}
+    return {"ops": [], "violation": None, "digest": digest, "stats": total,
+            "config": {"explorer": "hypothesis", "examples": examples, "steps": steps}, "nontrivial": total.nonvacuous > 0,
+            "result_digest": digest[:20]}
+
+
 def run_one(prop, tier, seed, proxy=True):
+    if tier == "thorough" and prop in ("C19", "C20") and seed % HYPOTHESIS_EVERY == HYPOTHESIS_EVERY - 1:
+        return run_hypothesis(prop, tier, seed)
     sim = Sim(prop, tier, seed)
     violation = sim.run()
     st = sim.stats
